@@ -138,10 +138,25 @@ class DictWriter:
                 "binding": self.write_binding(variable.binding),
                 "amount": variable.amount,
                 "alignment": variable.alignment,
+                "value": self.write_initial_value(variable.value),
             }
         else:  # pragma: no cover
             raise NotImplementedError(str(variable))
         return json_variable
+
+    def write_initial_value(self, value):
+        if value is None:
+            return None
+        json_parts = []
+        for part in value:
+            if isinstance(part, bytes):
+                json_part = {"kind": "data", "data": bin2asc(part)}
+            elif isinstance(part, tuple) and part[0] is ir.ptr:
+                json_part = {"kind": "label", "name": part[1]}
+            else:  # pragma: no cover
+                raise NotImplementedError(str(part))
+            json_parts.append(json_part)
+        return json_parts
 
     def write_subroutine(self, subroutine):
         json_binding = self.write_binding(subroutine.binding)
@@ -417,9 +432,25 @@ class DictReader:
         binding = self.construct_binding(json_variable["binding"])
         amount = json_variable["amount"]
         alignment = json_variable["alignment"]
-        variable = ir.Variable(name, binding, amount, alignment)
+        value = self.construct_initial_value(json_variable["value"])
+        variable = ir.Variable(name, binding, amount, alignment, value=value)
         self.register_value(variable)
         return variable
+
+    def construct_initial_value(self, json_parts):
+        if json_parts is None:
+            return None
+        parts = []
+        for json_part in json_parts:
+            pkind = json_part["kind"]
+            if pkind == "data":
+                part = asc2bin(json_part["data"])
+            elif pkind == "label":
+                part = (ir.ptr, json_part["name"])
+            else:  # pragma: no cover
+                raise NotImplementedError(pkind)
+            parts.append(part)
+        return tuple(parts)
 
     def construct_subroutine(self, json_subroutine):
         name = json_subroutine["name"]
